@@ -1,5 +1,6 @@
 import KitModel.Spiffe
 import KitProofs.Lemmas.Spiffe
+import KitProofs.Lemmas.SpiffeRenew
 /-!
 Property C19 — SPIFFE: readiness never deadlocks; the latest good SVID is served and renewed at
 half-life.  Theorems about the models in `KitModel/Spiffe.lean` (helpers in
@@ -70,5 +71,166 @@ theorem getsvid_before_run_witness :
 /-- The same schedule in the repaired code is not stuck: the first theorem applies to it. -/
 example : ∃ s, Reach .fixed init s ∧ s.run = .pendLock ∧ s.cons = [.gCall] :=
   ⟨_, .tail .run (.tail .run (.tail .callRun (.tail .callGet (.refl _) rfl) rfl) rfl) rfl, rfl, rfl⟩
+
+/-! ## renewal automaton (fake clock; every issuer script, every validity window, every sequence of
+clock advances and trust-anchor changes) -/
+
+/-- A concrete run used for the non-vacuity examples: 1 h certificate, then a failure, then success;
+with a write directory. -/
+def exScript : List Reply := [.ok 0 3600000000000, .fail, .ok 1800000000000 5400000000000]
+def ex0 : RN := start true 7 exScript 0
+def ex1 : RN := advance ex0 1800000000000      -- half-life reached: request, fails
+def ex2 : RN := advance ex1 10000000000        -- 10 s later: retry, succeeds
+
+theorem ex0_reach : RReach true 7 exScript 0 ex0 := .start
+theorem ex1_reach : RReach true 7 exScript 0 ex1 := .adv _ (by decide) ex0_reach
+theorem ex2_reach : RReach true 7 exScript 0 ex2 := .adv _ (by decide) ex1_reach
+
+/-- **The SVID served is the most recently fetched good one** (renewal automaton): in every
+reachable state the token of `currentSVID` is the newest successful entry of the request log. -/
+theorem served_is_latest_good {dirOn : Bool} {a0 : Nat} {script : List Reply} {t0 : Int} {s : RN}
+    (h : RReach dirOn a0 script t0 s) : s.svid.map (·.tok) = lastGood s.log :=
+  (rinv h).1.data.served
+
+example : ex2.svid.map (·.tok) = some 2 ∧ ex1.svid.map (·.tok) = some 0 := by decide
+
+/-- **Renewal no later than one minute after half-life.**  In every reachable state that waits on a
+certificate: (i) the clock has not reached the renewal time (`now < wakeAt ≤ renewAt`: whenever the
+clock is at/after half-life and the due timers have fired, the request has been issued), and wakes are
+armed at most a minute apart; (ii) the clock advance during which half-life is reached issues the
+request at that very wake, stamped with that clock value and carrying a fresh key; if the wake is at
+most a minute late — in particular if the clock moves in steps of at most a minute — the request is
+stamped no later than one minute after half-life. -/
+theorem renew_within_minute {dirOn : Bool} {a0 : Nat} {script : List Reply} {t0 : Int} {s : RN}
+    (h : RReach dirOn a0 script t0 s) (hm : s.mode = .waiting) :
+    (s.now < s.wakeAt ∧ s.wakeAt ≤ s.renewAt ∧ s.wakeAt ≤ s.armedAt + minute) ∧
+    ∀ d, 0 < d → s.renewAt ≤ s.now + d →
+      ∃ pre r, (advance s d).log = pre ++ r :: s.log ∧ r.stamp = s.now + d ∧ r.tok = s.nextTok ∧
+        (∀ q ∈ pre, q.stamp = s.now + d) ∧
+        (s.now + d ≤ s.wakeAt + minute → r.stamp ≤ s.renewAt + minute) ∧
+        (d ≤ minute → r.stamp < s.renewAt + minute) := by
+  obtain ⟨hl, hdue⟩ := rinv h
+  obtain ⟨hw1, hw2, hw3⟩ := hl.waiting hm
+  have hnow : s.now < s.wakeAt := by
+    cases hlt : decide (s.now < s.wakeAt)
+    · have : s.due = true := (due_iff s).mpr ⟨by rw [hm]; simp, by simpa using hlt⟩
+      rw [this] at hdue; cases hdue
+    · simpa using hlt
+  refine ⟨⟨hnow, hw1, hw2⟩, ?_⟩
+  intro d hd hreach
+  have hdue' : RN.due { s with now := s.now + d } = true :=
+    (due_iff _).mpr ⟨by show s.mode ≠ .dead; rw [hm]; simp, by show s.wakeAt ≤ s.now + d; omega⟩
+  obtain ⟨r, hr, hstamp, htok, _⟩ := wake_fetches (s := { s with now := s.now + d }) hm hreach
+  obtain ⟨hn, pre, hlog, hpre⟩ := settle_log (2 * s.script.length + 2) (wake { s with now := s.now + d })
+  have hadv : advance s d = settle (2 * s.script.length + 2) (wake { s with now := s.now + d }) := by
+    show settle (2 * s.script.length + 2 + 1) { s with now := s.now + d } = _
+    simp only [settle, hdue', if_true]
+  refine ⟨pre, r, ?_, hstamp, htok, ?_, ?_, ?_⟩
+  · rw [hadv, hlog, hr]
+  · intro q hq; rw [hpre q hq, wake_now]
+  · intro hlate; rw [hstamp]; show s.now + d ≤ s.renewAt + minute; omega
+  · intro hsmall; rw [hstamp]; show s.now + d < s.renewAt + minute; omega
+
+example : ex0.mode = .waiting ∧ ex0.renewAt ≤ ex0.now + 1800000000000 ∧ ex1.log.length = 2 := by decide
+
+/-- **Failed renewals are retried every 10 s and do not disturb the served SVID.**  In every
+reachable state that waits for a retry: the newest request failed and the timer is armed for exactly
+10 s after it; a clock advance that stays before the deadline changes nothing but the clock; the
+advance that reaches it issues a new request at that wake (so exactly 10 s after the failure when
+the clock lands on the deadline). -/
+theorem retry_every_10s_keeps_svid {dirOn : Bool} {a0 : Nat} {script : List Reply} {t0 : Int} {s : RN}
+    (h : RReach dirOn a0 script t0 s) (hm : s.mode = .retrying) :
+    (∃ r rest, s.log = r :: rest ∧ r.good = false ∧ s.wakeAt = r.stamp + tenSec ∧ s.now < s.wakeAt) ∧
+    (∀ d, 0 < d → s.now + d < s.wakeAt → advance s d = { s with now := s.now + d }) ∧
+    (∀ d, 0 < d → s.wakeAt ≤ s.now + d →
+      ∃ pre r, (advance s d).log = pre ++ r :: s.log ∧ r.stamp = s.now + d ∧ r.tok = s.nextTok ∧
+        ∀ q ∈ pre, q.stamp = s.now + d) := by
+  obtain ⟨hl, hdue⟩ := rinv h
+  obtain ⟨hw1, hw2, hw3, r0, rest, hlog0, hbad, hst⟩ := hl.retrying hm
+  have hnow : s.now < s.wakeAt := by
+    cases hlt : decide (s.now < s.wakeAt)
+    · have : s.due = true := (due_iff s).mpr ⟨by rw [hm]; simp, by simpa using hlt⟩
+      rw [this] at hdue; cases hdue
+    · simpa using hlt
+  refine ⟨⟨r0, rest, hlog0, hbad, by rw [hst]; exact hw1, hnow⟩, ?_, ?_⟩
+  · intro d _ hlt
+    have hnd : RN.due { s with now := s.now + d } = false := by
+      cases hd : RN.due { s with now := s.now + d }
+      · rfl
+      · have := ((due_iff _).mp hd).2
+        have : s.wakeAt ≤ s.now + d := this
+        omega
+    show settle (2 * s.script.length + 2 + 1) { s with now := s.now + d } = _
+    simp only [settle, hnd]
+    rfl
+  · intro d hd hreach
+    have hm' : ({ s with now := s.now + d } : RN).mode = .retrying := hm
+    have hdue' : RN.due { s with now := s.now + d } = true :=
+      (due_iff _).mpr ⟨by rw [hm']; simp, hreach⟩
+    -- the 10 s timer fires: `continue` re-arms with a non-positive duration, which fires at once
+    have hwake1 : wake { s with now := s.now + d } = arm { s with now := s.now + d } := by
+      rcases wake_cases { s with now := s.now + d } with ⟨h1, _⟩ | ⟨_, hw⟩ | ⟨h1, _⟩ | ⟨h1, _⟩ | ⟨h1, _⟩
+      · rw [hm'] at h1; cases h1
+      · exact hw
+      · rw [hm'] at h1; cases h1
+      · rw [hm'] at h1; cases h1
+      · rw [hm'] at h1; cases h1
+    obtain ⟨a1, a2, a3, a4, a5, _, a7, a8, _, _, a11, _⟩ := arm_fields { s with now := s.now + d }
+    have hmin := minute_pos
+    have hdue2 : RN.due (arm { s with now := s.now + d }) = true := by
+      refine (due_iff _).mpr ⟨by rw [a1]; simp, ?_⟩
+      rw [a2, a4]
+      show s.now + d + min minute (s.renewAt - (s.now + d)) ≤ s.now + d
+      omega
+    have hren : (arm { s with now := s.now + d }).renewAt ≤ (arm { s with now := s.now + d }).now := by
+      rw [a5, a4]; show s.renewAt ≤ s.now + d; omega
+    obtain ⟨r, hr, hstamp, htok, _⟩ := wake_fetches a1 hren
+    obtain ⟨hn, pre, hlog, hpre⟩ := settle_log (2 * s.script.length + 1) (wake (arm { s with now := s.now + d }))
+    have hadv : advance s d = settle (2 * s.script.length + 1) (wake (arm { s with now := s.now + d })) := by
+      show settle (2 * s.script.length + 1 + 1 + 1) { s with now := s.now + d } = _
+      simp only [settle, hdue', if_true, hwake1, hdue2]
+    refine ⟨pre, r, ?_, ?_, ?_, ?_⟩
+    · rw [hadv, hlog, hr, a7]
+    · rw [hstamp, a4]
+    · rw [htok, a8]
+    · intro q hq; rw [hpre q hq, wake_now, a4]
+
+example : ex1.mode = .retrying ∧ ex1.wakeAt = 1810000000000 ∧ (advance ex1 5000000000).log = ex1.log ∧
+    ex2.log.length = 3 := by decide
+
+/-- Requests that all fail leave the served SVID untouched, whatever the clock does. -/
+theorem failed_fetches_keep_svid {dirOn : Bool} {a0 : Nat} {script : List Reply} {t0 : Int} {s : RN}
+    (h : RReach dirOn a0 script t0 s) {d : Int} (hd : 0 < d) {pre : List Req}
+    (hlog : (advance s d).log = pre ++ s.log) (hbad : ∀ q ∈ pre, q.good = false) :
+    (advance s d).svid.map (·.tok) = s.svid.map (·.tok) := by
+  rw [served_is_latest_good h, served_is_latest_good (.adv d hd h), hlog, lastGood_append_bad pre s.log hbad]
+
+/-- **Every fetch uses a fresh key, published with its chain and the current trust anchors as one
+file set.**  The k-th request carries key k (so keys are pairwise distinct); with a write directory
+there is exactly one `dir.Write` per *successful* fetch, in order, and its file set is
+`{key k, chain of k, anchors current at request k}` — never a key with another fetch's chain; a
+failed fetch publishes nothing; without a write directory nothing is written. -/
+theorem fetch_fresh_key_one_fileset {dirOn : Bool} {a0 : Nat} {script : List Reply} {t0 : Int} {s : RN}
+    (h : RReach dirOn a0 script t0 s) :
+    s.log.map (·.tok) = (List.range s.log.length).reverse ∧ (s.log.map (·.tok)).Nodup ∧
+    s.pub = (if s.dirOn then (s.log.filter (·.good)).map fileSetOf else []) ∧
+    ∀ f ∈ s.pub, f.key = f.chain := by
+  obtain ⟨hl, _⟩ := rinv h
+  have hlen : s.log.length = s.nextTok := by
+    have := congrArg List.length hl.data.toks
+    simpa using this
+  refine ⟨by rw [hlen]; exact hl.data.toks, ?_, hl.data.pubs, ?_⟩
+  · rw [hl.data.toks]
+    simp only [List.Nodup, List.pairwise_reverse]
+    exact (List.nodup_range (n := s.nextTok)).imp (fun h => Ne.symm h)
+  · intro f hf
+    rw [hl.data.pubs] at hf
+    split at hf
+    · simp only [List.mem_map] at hf
+      obtain ⟨r, _, rfl⟩ := hf
+      rfl
+    · simp at hf
+
+example : ex2.pub = [⟨2, 2, 7⟩, ⟨0, 0, 7⟩] ∧ ex2.log.map (·.good) = [true, false, true] := by decide
 
 end Kit.Spiffe
